@@ -82,6 +82,7 @@ type Exec struct {
 	invLoopBlocks map[*ssa.BasicBlock]bool
 	sumCache      map[string]*GhostSum
 	loopHdr       map[*loopInfo]*State // state at each loop header right after the invariants were assumed
+	hyps          []hypRecord          // quantified facts assumed so far (for explicit instantiation)
 }
 
 type unsupportedErr struct{ msg string }
